@@ -17,6 +17,9 @@ CLAIMED = {
  "C03": ("TLA+ exact instant arithmetic (TimeScale.tla, OpsTz.AddFixed); TLC trace validation of add/subtract/+-timedelta around every transition",
          "every recorded add()/subtract()/+ timedelta/- timedelta/timedelta + dt call with only fixed-length units - sources on either side of and inside every transition (both folds), amounts straddling it, mixed-sign components, random amounts up to 1e9 s, naive values, subtract() undoing add() on the threaded object - is judged by TLC against FromInst(zone, Inst(src) + d) computed in exact limb arithmetic",
          "TLC, tz database as above, harness projection", "7 C03"),
+ "C15": ("TLA+ proleptic Gregorian calendar (Calendar.tla) model-checked over all dates (closed forms vs successor-day induction, Alg* refinement); TLC trace validation of primitives and getters per year/date in both back-ends",
+         "TLC exhaustively checks the calendar reference (YMD/Ord/IsoCal/long years/month arithmetic) against the successor-day induction and the implementation-shaped helper algorithms against the reference (a full 400-year cycle plus both ends of the range in the quick tier, all 3,652,059 dates in the thorough tier); every recorded is_leap/is_long_year/days_in_year (all 9999 years), week_day (every date), Date/DateTime getters and local_time (every day boundary) result of both back-ends is judged by TLC against the reference (getters and local_time over a seed-rotated share of the years in the quick tier, all in the thorough tier)",
+         "TLC, harness projection; the standard library's calendar is represented by Calendar.tla, itself validated by the induction", "7 C15"),
 }
 NOT_YET = "check not built yet in this round (planned: see DESIGN.md section 7)"
 
